@@ -86,7 +86,7 @@ pub fn analyze_rows(egraph: &EGraph, enode: &Expr) -> Rows {
         Xor([a, b]) => x(a) + x(b) - 2.0 * x(a) * x(b),
         Not(a) => 1.0 - x(a),
         Gt(_) | Lt(_) | GtEq(_) | LtEq(_) | Eq(_) | NotEq(_) | Like(_) => 0.5,
-        In([_, b]) => 1.0 / x(b),
+        In([_, b]) => 1.0 / x(b).max(1.0), // an empty subquery is not an infinite selectivity
         Exists(_) => 0.5,
 
         _ => 1.0,
